@@ -436,7 +436,8 @@ def draw_op(data, run, weights=None, sym_bias=None):
     if k == 'add_fwd':
         n, c = draw_symbol(data, run, {'prefix': 4, 'compatible': 4, 'incompatible': 2, 'foreign': 0})
         kmax = max(run.leaf_counts.get(n, 1) - 1, 0)
-        return ['add_fwd', n, data.draw(st.integers(0, kmax))]
+        # negative indices count the leaves from the end (documented range -len <= forward < len)
+        return ['add_fwd', n, data.draw(st.integers(-kmax - 1, kmax))]
     if k == 'remove':
         return ['remove', data.draw(st.integers(0, len(run.model) - 1))]
     if k == 'remove_nonchild':
